@@ -396,11 +396,119 @@ pub fn jobs(tier: Tier) -> Vec<Job> {
     jobs
 }
 
+// ------------------------------------------------------------------ E4: descriptor cycles on real transports
+
+fn count_fds() -> usize {
+    std::fs::read_dir("/proc/self/fd").map(|d| d.count()).unwrap_or(0)
+}
+
+async fn fd_case(ty: Ty, tr: crate::e4::Tr, reset: bool, cycles: usize) -> Option<(String, String)> {
+    use crate::e4::{self, RawStream};
+    use std::time::Duration;
+    let what = format!("{} over {}: {} cycles of connect, handshake, traffic, {}", ty.name(), tr.name(), cycles, if reset { "abortive close (RST)" } else { "orderly close" });
+    let mut sock = AnySocket::new(ty, None);
+    sock.subscribe_all().await;
+    let ep = match sock.bind(&e4::bind_spec(tr)).await {
+        Ok(e) => e,
+        Err(e) => return Some(("machinery/bind".into(), format!("{}: {}", what, e))),
+    };
+    let mut baseline = 0usize;
+    for cycle in 0..cycles + 3 {
+        if cycle == 3 {
+            // the first cycles let lazily created descriptors appear
+            tokio::time::sleep(Duration::from_millis(30)).await;
+            baseline = count_fds();
+        }
+        let mut c = match RawStream::connect(&ep).await {
+            Ok(c) => c,
+            Err(e) => return Some(("machinery/connect".into(), format!("{}: {}", what, e))),
+        };
+        if e4::raw_handshake(&mut c, ty.peer_type(), None).await.is_err() {
+            return Some(("machinery/handshake".into(), what));
+        }
+        if ty.can_recv() && ty != Ty::Req {
+            let _ = c.write_all(&rc::encode_message(&e4::peer_message(ty, "x"))).await;
+            let _ = tokio::time::timeout(Duration::from_millis(500), sock.recv()).await;
+        } else if matches!(ty, Ty::Pub) {
+            let _ = c.write_all(&rc::encode_message(&[vec![1u8]])).await;
+            tokio::time::sleep(Duration::from_millis(2)).await;
+        }
+        // the peer goes away
+        if reset {
+            if let RawStream::Tcp(s) = &c {
+                #[allow(deprecated)]
+                let _ = s.set_linger(Some(Duration::ZERO));
+            }
+        }
+        drop(c);
+        tokio::time::sleep(Duration::from_millis(2)).await;
+        // give the socket the chance to observe it the way its type can
+        if ty.can_recv() && ty != Ty::Req {
+            let _ = tokio::time::timeout(Duration::from_millis(20), sock.recv()).await;
+        }
+        if matches!(ty, Ty::Push | Ty::Dealer | Ty::Req | Ty::Pub | Ty::XPub) {
+            for _ in 0..2 {
+                let _ = tokio::time::timeout(Duration::from_millis(200), sock.send(crate::e1::msg(&[b"probe".to_vec()]))).await;
+                if ty == Ty::Req {
+                    let _ = tokio::time::timeout(Duration::from_millis(20), sock.recv()).await;
+                }
+            }
+        }
+    }
+    let (ok, _) = e4::await_cond(e4::HORIZON, || count_fds() <= baseline).await;
+    let now = count_fds();
+    let _ = sock.close().await;
+    if !ok {
+        return Some((
+            format!("fd-leak/{}/{}", ty.name(), if reset { "reset" } else { "close" }),
+            format!("{}: {} descriptors open before the cycles, {} afterwards ({} s later): the socket accumulates dead connections", what, baseline, now, e4::HORIZON.as_secs()),
+        ));
+    }
+    None
+}
+
+pub fn child_fd(tier: Tier) -> i32 {
+    let cycles = tier.pick(12usize, 50usize);
+    let rt = crate::e4::runtime(2);
+    let mut n = 0;
+    for ty in ALL_TYPES {
+        for tr in [crate::e4::Tr::Tcp4, crate::e4::Tr::Tcp6, crate::e4::Tr::Ipc] {
+            for reset in [false, true] {
+                if reset && tr == crate::e4::Tr::Ipc {
+                    continue;
+                }
+                n += 1;
+                let r = rt.block_on(fd_case(ty, tr, reset, cycles));
+                println!("{}", json!({"type": ty.name(), "transport": tr.name(), "reset": reset, "cycles": cycles, "finding": r}));
+            }
+        }
+    }
+    crate::e4::cleanup_ipc_dir();
+    println!("{}", json!({"cases": n}));
+    0
+}
+
 pub fn run(tier: Tier, replay: Option<String>) -> i32 {
     world::install_panic_hook();
     let mut ck = Check::new("C16", tier, "model_checking");
     if let Some(path) = replay {
         let v: Value = serde_json::from_str(&std::fs::read_to_string(&path).expect("read")).expect("json");
+        if v["replay"]["engine"] == "E4" {
+            let r = &v["replay"];
+            let rt = crate::e4::runtime(2);
+            let out = rt.block_on(fd_case(Ty::from_name(r["type"].as_str().unwrap()).unwrap(), crate::e4::Tr::from_name(r["transport"].as_str().unwrap()).unwrap(), r["reset"].as_bool().unwrap(), r["cycles"].as_u64().unwrap() as usize));
+            crate::e4::cleanup_ipc_dir();
+            return match out {
+                Some((c, m)) => {
+                    println!("replay: VIOLATION {}: {}", c, m);
+                    1
+                }
+                None => {
+                    println!("replay: holds");
+                    0
+                }
+            };
+        }
         return crate::replay::replay_e3(&v, |p| {
             let pr = pf(p)?;
             Some(std::sync::Arc::new(move || scenario(&pr)) as zvcore::explore::Scenario)
@@ -409,12 +517,38 @@ pub fn run(tier: Tier, replay: Option<String>) -> i32 {
     let js = jobs(tier);
     let n = js.len() as u64;
     e3::run_jobs_into(&mut ck, js, true);
+    // E4: descriptor cycles on the real transports, in a child process (descriptor counts are per process)
+    let mut fd_cases = 0u64;
+    if let Ok(exe) = std::env::current_exe() {
+        match std::process::Command::new(exe).args(["c16-fd", tier.as_str()]).output() {
+            Ok(o) if o.status.success() => {
+                for l in String::from_utf8_lossy(&o.stdout).lines() {
+                    let Ok(v) = serde_json::from_str::<Value>(l) else { continue };
+                    if let Some(n) = v["cases"].as_u64() {
+                        fd_cases = n;
+                        continue;
+                    }
+                    if let Some(f) = v["finding"].as_array() {
+                        let (c, m) = (f[0].as_str().unwrap_or("?"), f[1].as_str().unwrap_or(""));
+                        if c.starts_with("machinery/") {
+                            ck.machinery_error(m.to_string());
+                        } else {
+                            ck.finding(c.to_string(), m.to_string(), json!({"engine":"E4","type":v["type"],"transport":v["transport"],"reset":v["reset"],"cycles":v["cycles"]}));
+                        }
+                    }
+                }
+            }
+            Ok(o) => ck.machinery_error(format!("c16-fd child exited with {:?}", o.status)),
+            Err(e) => ck.machinery_error(format!("cannot run c16-fd child: {}", e)),
+        }
+    }
+    ck.cov("e4_descriptor_cycle_cases", fd_cases);
     let ex = ck.coverage.get("e3_executions").and_then(|v| v.as_u64()).unwrap_or(0);
     ck.cov("states", n);
     ck.cov("transitions", ex);
     ck.cov("traces_validated_against_impl", ex);
     ck.cov("exhaustive", ck.coverage.get("e3_scenarios_capped").and_then(|v| v.as_u64()) == Some(0));
-    ck.cov("explanation", "for each of the 9 socket types: a victim peer whose byte stream (greeting + READY + message + multipart message) is cut at EVERY byte offset by {close: end-of-stream and failing writes; reset: read error and failing writes; silence with failing writes}, next to a live peer attached before or after it that keeps sending; every schedule within the deviation bound. Oracle: a cut inside the handshake makes attach fail and both halves of the connection are dropped; later cuts: every message of the live peer is delivered, recv reports at most one error for the event and then parks or delivers (step horizon = spin), no send after the end was observed grows the victim's wire (write-only sockets observe it through one failing send), the live peer still receives what is sent to it, and at final quiescence BOTH halves of the victim's connection have been dropped (peer-table entry, buffers, transport handle released). states = scenarios (type x offset x fault x attach order); transitions = executions. Descriptor counting over real TCP/IPC cycles is not part of this check (see DESIGN.md).");
+    ck.cov("explanation", "for each of the 9 socket types: a victim peer whose byte stream (greeting + READY + message + multipart message) is cut at EVERY byte offset by {close: end-of-stream and failing writes; reset: read error and failing writes; silence with failing writes}, next to a live peer attached before or after it that keeps sending; every schedule within the deviation bound. Oracle: a cut inside the handshake makes attach fail and both halves of the connection are dropped; later cuts: every message of the live peer is delivered, recv reports at most one error for the event and then parks or delivers (step horizon = spin), no send after the end was observed grows the victim's wire (write-only sockets observe it through one failing send), the live peer still receives what is sent to it, and at final quiescence BOTH halves of the victim's connection have been dropped (peer-table entry, buffers, transport handle released). states = scenarios (type x offset x fault x attach order); transitions = executions. Additionally (E4, real runtime, OS schedules not enumerated): for each type x {TCP v4, TCP v6, IPC} x {orderly close, abortive close (RST, TCP only)} a series of connect / handshake / traffic / disconnect cycles, after which the process's open-descriptor count must return to its value before the cycles.");
     ck.assume("'connection released' = the harness pipe halves handed to the library have been dropped");
     ck.conclude()
 }
